@@ -243,11 +243,12 @@ end Tie
 /-! ## ===== END work package c11tie ===== -/
 
 
-/-- Lean witness of the OPEN finding `adev-site-in-cond-branch` (DESIGN §8): the interpreter gives an enumeration site inside a `lax.cond`
-    branch only the rest of the BRANCH as its continuation and applies the computation after the cond to the branch's result.
+/-- Lean witness of the REPAIRED defect `adev-site-in-cond-branch` (DESIGN §8, fix b0f97e1): the interpreter gave an enumeration site inside a `lax.cond`
+    branch only the rest of the BRANCH as its continuation and applied the computation after the cond to the branch's result.
     For `b = flip_enum(p); x = cond(b, where(flip_enum(q), 2, -1)·q, p); return x²` at (p, q) = (3/10, 3/5):
     the expectation (what the property demands, and what the outcome-tree model `Prog.exact` computes) is 1827/5000 = 0.3654, the
-    branch-local evaluation is 3303/25000 = 0.13212 — the value the implementation returns (replayed by `props/c11.py`). -/
+    branch-local evaluation is 3303/25000 = 0.13212 — the value the implementation returned before the fix; `props/c11.py` now
+    requires the first value. -/
 theorem C11_asis_cond_branch_cex :
     let p : Dual ℚ := ⟨3/10, 0⟩
     let q : Dual ℚ := ⟨3/5, 0⟩
